@@ -196,7 +196,10 @@ func c16Edits() []edit {
 		{"global/scrape_interval", func(s *cfggen.Spec) bool { s.Interval = other(s.Interval, "2m", "3m"); return true }},
 		{"global/scrape_timeout", func(s *cfggen.Spec) bool { s.Timeout = other(s.Timeout, "7s", "8s"); return true }},
 		{"global/evaluation_interval", func(s *cfggen.Spec) bool { s.EvalInterval = other(s.EvalInterval, "45s", "50s"); return true }},
-		{"rule_files/add", func(s *cfggen.Spec) bool { s.RuleFiles = append(s.RuleFiles, "/etc/prometheus/more/*.yml"); return true }},
+		{"rule_files/add", func(s *cfggen.Spec) bool {
+			s.RuleFiles = append(s.RuleFiles, "/etc/prometheus/more/*.yml")
+			return true
+		}},
 		{"rule_files/remove", func(s *cfggen.Spec) bool {
 			if len(s.RuleFiles) == 0 {
 				return false
@@ -436,7 +439,10 @@ func c16Edits() []edit {
 			je("label_name_length_limit", func(j *cfggen.Job) bool { j.LabelNameLen += 1; return true }),
 			je("label_value_length_limit", func(j *cfggen.Job) bool { j.LabelValueLen += 1; return true }),
 			je("body_size_limit", func(j *cfggen.Job) bool { j.BodySizeLimit = other(j.BodySizeLimit, "3MB", "4MB"); return true }),
-			je("proxy_url", func(j *cfggen.Job) bool { j.ProxyURL = other(j.ProxyURL, "http://proxy-a.example:3128", "http://proxy-b.example:3128"); return true }),
+			je("proxy_url", func(j *cfggen.Job) bool {
+				j.ProxyURL = other(j.ProxyURL, "http://proxy-a.example:3128", "http://proxy-b.example:3128")
+				return true
+			}),
 			je("follow_redirects", func(j *cfggen.Job) bool {
 				j.FollowRedirects = boolp(j.FollowRedirects != nil && !*j.FollowRedirects)
 				return true
